@@ -38,6 +38,7 @@ def run(prog, chk):
     from props import C16
     C16.extent_accumulation(prog, chk)  # repeated bodies: every rendered pass is counted in the extent
     from props import C10
+    C10.error_swallow(prog, chk)  # a clip-path / reference that cannot be parsed or resolved is an error, not "no clip"
     C10.registration(prog, chk)  # an element placed against a target that is not resolved yet has no (or a wrong) box in the extent
     transform_fold(prog, chk)
     config_is_incremental(prog, chk)
